@@ -1302,6 +1302,7 @@ e_prim_divrem(void)
 		q3 = br_rem(v[0], v[1], v[2]);
 		out_u32("q", q); out_u32("r", rm); out_u32("div", q2); out_u32("rem", q3);
 		PUBLIC(v, 4 * sizeof *v);
+		PUBLIC(&q, sizeof q);
 		if (q != (uint32_t)(((((uint64_t)v[0]) << 32) | v[1]) / v[2])) expect("quotient", 0, 1);
 		free(v);
 	}
@@ -1386,7 +1387,10 @@ main(int argc, char **argv)
 	for (i = 0; i < sizeof entries / sizeof entries[0]; i ++) {
 		if (strcmp(entries[i].name, P_entry) == 0) {
 			entries[i].fn();
-			printf("DIGEST %016llx\n", (unsigned long long)g_dig);
+			/* --nodigest 1: the differential (instruction-count) runs must not
+			   execute value-dependent formatting code */
+			if (vf_argi(argc, argv, "--nodigest", 0)) printf("DIGEST -\n");
+			else printf("DIGEST %016llx\n", (unsigned long long)g_dig);
 			if (!g_status_bad) printf("STATUS expected\n");
 			printf("VALGRIND %d\n", (int)RUNNING_ON_VALGRIND);
 			printf("OK\n");
